@@ -176,6 +176,9 @@ func runC13(r *fw.Run, p *fw.Program) {
 	c13Inv(r, p)
 	c13Panic(r, p, scope)
 	c13Wrap(r, p)
+	c13Alloc(r, p, scope)
+	c13ErrVal(r, p)
+	c13NilRet(r, p, scope)
 }
 
 func c13Pre(r *fw.Run, p *fw.Program, scope []*ssa.Function) {
@@ -345,6 +348,7 @@ const (
 	needNonNeg
 	needBase36
 	needBase62
+	needBounded // proved finite upper bound (allocation sizes)
 )
 
 func provedNeed(env *fw.IntervalEnv, v ssa.Value, b *ssa.BasicBlock, k needKind) bool {
@@ -353,6 +357,8 @@ func provedNeed(env *fw.IntervalEnv, v ssa.Value, b *ssa.BasicBlock, k needKind)
 		return env.ProvedNonZeroDeep(v, b)
 	case needNonNeg:
 		return env.ProvedNonNeg(v, b)
+	case needBounded:
+		return c13SizeBounded(env, v, b)
 	case needBase36, needBase62:
 		hi := int64(36)
 		if k == needBase62 {
@@ -368,6 +374,16 @@ func provedNeed(env *fw.IntervalEnv, v ssa.Value, b *ssa.BasicBlock, k needKind)
 func paramOf(fn *ssa.Function, env *fw.IntervalEnv, v ssa.Value, k needKind) *ssa.Parameter {
 	pv := env.Poly.Of(v)
 	atoms := pv.Atoms()
+	if k == needBounded {
+		// lengths of existing memory are bounded: only the remaining atom has to be a parameter
+		var rest []string
+		for _, a := range atoms {
+			if !strings.HasPrefix(a, "len(") && !strings.HasPrefix(a, "cap(") {
+				rest = append(rest, a)
+			}
+		}
+		atoms = rest
+	}
 	if len(atoms) != 1 {
 		return nil
 	}
@@ -387,6 +403,8 @@ func paramOf(fn *ssa.Function, env *fw.IntervalEnv, v ssa.Value, k needKind) *ss
 		if c > 0 && d >= 0 {
 			return par
 		}
+	case needBounded:
+		return par
 	default:
 		if c == 1 && d == 0 {
 			return par
